@@ -424,6 +424,8 @@ func DeserializeNode(data []byte) (Node, error) {
 				childNodeValue := &hashNode{hash: childHash, weight: childWeight}
 				if len(child) == hashWithWeightLength {
 					branchNode.Children[i] = childNodeValue
+				} else if len(child) < hashWithWeightLength+32 {
+					return nil, errors.New("invalid embedded short node")
 				} else {
 					childNodeValue.hash = child[hashWithWeightLength : hashWithWeightLength+32]
 					childKey := child[hashWithWeightLength+32:]
